@@ -148,3 +148,27 @@ def count_rounded_ops(t):
         elif x[0] == 'fcall':
             n += 1
     return n
+
+
+def spurious_overflow(t, nf):
+    """Rounded sub-results that are, over the reals, a multiple α·(final value) with |α| > 1.
+
+    Such a sub-result overflows for finite inputs whose final value is still representable (|final| in
+    (MAX/|α|, MAX]), so the computed result is ±inf/NaN where the stated value is finite.  Returns [(subterm, α)]."""
+    from ..terms import subterms
+    top = nf(t)
+    if top.is_zero() or top.is_const():
+        return []
+    out = []
+    seen = set()
+    for s in subterms(t):
+        if s == t or s in seen or s[0] not in ('f+', 'f-', 'f*', 'f/', 'fma'):
+            continue
+        seen.add(s)
+        r = nf(s)
+        if r.is_zero() or r.is_const():
+            continue
+        q = r / top
+        if q.is_const() and abs(q.const_value()) > 1:
+            out.append((s, q.const_value()))
+    return out
